@@ -137,6 +137,45 @@ def instantiate(sk, names):
     return go(sk)
 
 
+def binder_extra_worker(inst):
+    """binders outside the Prog language, as obligations: Approximate (binds and re-exposes its approx_vars)"""
+    from harness.oblig import decide
+    _, kind, how, name = inst
+
+    def ob(mk):
+        from collections import OrderedDict
+        import itertools as it
+        import z3
+        import funsor
+        import funsor.ops as ops
+        from funsor import Bint, Tensor
+        from funsor.interpretations import lazy, reflect
+        from harness.core import result_cells
+        from symx.symarray import as_obj
+        X = mk.array("x", (3, 2), "real")
+        G = mk.array("g", (3,), "real")
+        x = Tensor(X, OrderedDict([(name, Bint[3]), ("k", Bint[2])]))
+        g = Tensor(G, OrderedDict([(name, Bint[3])]))
+        with (reflect if how == "reflect" else lazy):
+            a = x.approximate(ops.logaddexp, g, name)
+        r = funsor.reinterpret(a)
+        ok_inputs = set(a.inputs) == {name, "k"} and set(r.inputs) <= {name, "k"}
+        pairs = [(z3.BoolVal(ok_inputs) if mk.symbolic else ok_inputs, None)]
+        if not ok_inputs:
+            return pairs
+        got, exp = [], []
+        Xc = as_obj(X)
+        for i, k in it.product(range(3), range(2)):
+            got.append(result_cells(r, {name: i, "k": k})[()])
+            exp.append(Xc[i, k])
+        pairs.append((got, exp))
+        return pairs
+    out = decide("binder|%s|%s|%s" % (kind, how, name), ob, timeout_ms=8000, twin=False)
+    out["prog"] = out["label"]
+    out["kind"] = out.get("kind") or "binder"
+    return out
+
+
 def worker(inst):
     from harness.core import check_prog
     from harness.schedules import SCHEDULES
@@ -196,6 +235,7 @@ def main():
     chk = Check("C05", "model_checking")
     insts = instances(chk.tier, chk.seed)
     chk.map("checks.c05", "worker", insts, chunksize=8)
+    chk.map("checks.c05", "binder_extra_worker", [("binder", "approximate", how, nm) for how in ("reflect", "lazy") for nm in ("a", "x")], chunksize=1, family="approximate")
     # the time binder of a lazily built MarkovProduct (not in the Prog language): obligation harness of C10
     from checks.c10 import instances as c10_instances
     mb = [i for i in c10_instances(chk.tier, chk.seed) if i[0] == "markov_binder"]
